@@ -87,5 +87,14 @@ Exact == (rn = "returned" /\ ~cmdCtx) =>
            /\ Set(printed) = {r \in Req : kind[r] = "hit"}
            /\ Set(errlog) = {r \in Req : kind[r] \in {"fail", "reqerr"}} /\ Len(errlog) = Cardinality(Set(errlog))
 Returns == <>(rn = "returned")
+(* ---- refinement to the seam-level specification AppScanObs ---- *)
+oBusy == {r \in Req : \E w \in Wk : wk[w].pc = "scanning" /\ wk[w].req = r}
+oEnded == {r \in Req : scanned[r] >= 1 /\ r \notin oBusy /\ ~(\E w \in Wk : wk[w].pc = "scan" /\ wk[w].req = r)}
+Obs == INSTANCE AppScanObs WITH total <- R, nw <- W, gen <- gi - 1,
+          kHit <- {r \in Req : r < gi /\ kind[r] = "hit"}, kMiss <- {r \in Req : r < gi /\ kind[r] = "miss"},
+          kFail <- {r \in Req : r < gi /\ kind[r] = "fail"}, kReqErr <- {r \in Req : r < gi /\ kind[r] = "reqerr"},
+          busy <- oBusy, ended <- oEnded, printed <- Set(printed), errs <- Set(errlog),
+          done <- done, returned <- (rn = "returned"), cancelled <- cmdCtx, exact <- DelayLongEnough,
+          limited <- FALSE, charged <- 0
+ObsSpec == Obs!ASpec
 ===============================================================================
-```
